@@ -866,10 +866,15 @@ ASSUMPTIONS = [
     "REDUCED is only required to have the same SET of solutions as DISTINCT (its cardinalities are implementation-defined and order-dependent in rdflib)",
     "ReadOnlyGraphAggregate is exercised with disjoint member graphs and without property paths (finding F16 concerns paths, model of C11)",
     "SELECT [DISTINCT] * queries only; the vocabulary of C04",
+    "renaming of variables is proved for BGPs (specification and model: C15_rename_bgp, C15_rename_bgp_model) and in the specification for "
+    "Join, Union, VALUES, sub-SELECT, DISTINCT, GRAPH over an IRI (C15_rename_partial); through expressions, OPTIONAL, MINUS, GRAPH ?g it is "
+    "covered by the renaming variants of suite variants only",
     "store independence is PROVED for the model parametrised by the store's enumeration function (C15_store_independent_partial: any two "
     "enumerations that hand out the matching triples of every pattern each once, every operator except OFFSET) and the hypothesis is proved "
     "for the Memory and SimpleMemory models of C01 (C15_enum_memory, C15_enum_simple; the auditable wrapper through C18_over_memory_refines, "
-    "by comment); that rdflib's evaluator reaches the store only through Graph.triples is the reading of evaluate.evalBGP, and the aggregate "
+    "and as the closed theorem C15_enum_auditable for every state reached by any history through the wrapper); a Dataset held as the contexts of one "
+    "Memory store is packaged into one enumeration function (C15_enum_dataset, C15_store_dataset_partial: GRAPH patterns included); "
+    "that rdflib's evaluator reaches the store only through Graph.triples is the reading of evaluate.evalBGP, and the aggregate "
     "is the bag union of its members (C15_enum_aggregate) = the same data only for disjoint members, which is what the suite builds; "
     "the five real back ends are still exercised by the runs of suite same_query",
     "the tie C15_main_partial covers groups of rewritings that keep the variable names (BGP permutation, UNION swap, join swap, the last two "
